@@ -968,7 +968,28 @@ T_ENUM = {"type": "string", "enum": ["cat", "dog"]}
 # `Item` -> `BaseItem`: the referenced name merely ENDS WITH the referring class name (must not be mistaken for a recursive allOf); `Zed` -> `Other`: control.
 LATE_TARGETS = ["BaseItem", "Other", "BigCat"]
 T_BIN = {"type": "string", "format": "binary"}
-TARGETS = {"TModel": T_MODEL, "TEnum": T_ENUM, "TBin": T_BIN, "BaseItem": T_MODEL, "Other": T_MODEL, "BigCat": T_MODEL}
+SCALAR_TARGETS = {"TInt": {"type": "integer"}, "TBool": {"type": "boolean"}, "TStr": {"type": "string"}, "TNum": {"type": "number"},
+                  "TIntEnum": {"type": "integer", "enum": [0, 1, 2]}}
+T_INST = {"TInt": [0, 5, -1], "TBool": [True, False], "TStr": ["", "x"], "TNum": [0.0, 1.5], "TIntEnum": [0, 1, 7]}
+T_MODULE = {"TModel": "t_model", "TEnum": "t_enum", "TIntEnum": "t_int_enum"}
+
+
+def with_default(X, D):
+    """a default at the REFERENCING site: single-reference wrapper for a $ref, plain keyword for the inline copy"""
+    return {"allOf": [X], "default": D} if "$ref" in X else {**X, "default": D}
+
+
+def default_pos(pid, t, D):
+    return (pid, t, lambda X: {"type": "object", "properties": {"k": with_default(X, D), "other": {"type": "string"}}}, lambda I: [{"k": i} for i in I] + [{}])
+
+
+# defaults of every scalar kind incl. every FALSY value (0, false, "", 0.0), enum first / falsy member, plus truthy controls
+DEFAULT_POS = [("default0:TInt", "TInt", 0), ("default5:TInt", "TInt", 5), ("defaultF:TBool", "TBool", False), ("defaultT:TBool", "TBool", True), ("defaultE:TStr", "TStr", ""),
+               ("defaultX:TStr", "TStr", "x"), ("default00:TNum", "TNum", 0.0), ("default15:TNum", "TNum", 1.5), ("defaultEnum0:TIntEnum", "TIntEnum", 0),
+               ("defaultEnum2:TIntEnum", "TIntEnum", 2), ("defaultFirst:TEnum", "TEnum", "cat")]
+PARAM_DEFAULTS = {"param-default0:TInt": 0, "param-defaultF:TBool": False, "param-defaultE:TStr": "", "param-default00:TNum": 0.0, "param-defaultEnum0:TIntEnum": 0,
+                  "param-default5:TInt": 5, "param-defaultDog:TEnum": "dog", "param-hdr-default0:TInt": 0}
+TARGETS = {**SCALAR_TARGETS, "TModel": T_MODEL, "TEnum": T_ENUM, "TBin": T_BIN, "BaseItem": T_MODEL, "Other": T_MODEL, "BigCat": T_MODEL}
 HOLDER_NAMES = {"fwdallof-suffix:BaseItem": "Item", "fwdallof-control:Other": "Zed", "fwdallof-suffix3:BigCat": "Cat"}
 M_INST = [{"id": 3, "when": "2020-01-01", "kind": "cat", "tags": ["a", "b"]}, {"id": 0}, {"id": 1, "zzz": True, "kind": "dog"}, {"id": 2, "kind": "bird"}, {"when": "2020-01-01"}, {"id": 4, "when": "nope"}]
 E_INST = ["cat", "dog", "bird", 5]
@@ -993,7 +1014,8 @@ SCHEMA_POS = [
     ("default:TEnum", "TEnum", lambda X: {"type": "object", "properties": {"k": ({"allOf": [X], "default": "dog"} if "$ref" in X else {**X, "default": "dog"})}}, lambda I: [{"k": i} for i in I] + [{}]),
 ]
 # every request media type kind; TModel is used by reference as a multipart body AND as json / form body AND as a response: one shared class must serve all
-EP_POS = ["param-query:TEnum", "param-header:TEnum", "param-query-list:TEnum", "body-json:TModel", "body-form:TModel", "body-multipart:TModel", "body-octet:TBin",
+SCHEMA_POS += [default_pos(*d) for d in DEFAULT_POS]
+EP_POS = list(PARAM_DEFAULTS) + ["param-query:TEnum", "param-header:TEnum", "param-query-list:TEnum", "body-json:TModel", "body-form:TModel", "body-multipart:TModel", "body-octet:TBin",
           "response:TModel", "response-list:TModel"]
 
 
@@ -1006,7 +1028,7 @@ def holder_name(pid):
 def schema_doc(inline_positions):
     """the document with target schemas used by $ref everywhere except at the positions listed (an inline copy there)"""
     X = lambda pid, t: copy.deepcopy(TARGETS[t]) if pid in inline_positions else {"$ref": SREF + t}
-    S = {"TModel": copy.deepcopy(T_MODEL), "TEnum": copy.deepcopy(T_ENUM), "TBin": copy.deepcopy(T_BIN)}
+    S = {"TModel": copy.deepcopy(T_MODEL), "TEnum": copy.deepcopy(T_ENUM), "TBin": copy.deepcopy(T_BIN), **copy.deepcopy(SCALAR_TARGETS)}
     for pid, t, mk, _ in SCHEMA_POS:
         S[holder_name(pid)] = mk(X(pid, t))
     for t in LATE_TARGETS:
@@ -1016,7 +1038,10 @@ def schema_doc(inline_positions):
         kind, t = pid.split(":")
         x = X(pid, t)
         op = {"operationId": "op_" + kind.replace("-", "_"), "tags": ["t"], "responses": {"200": {"description": "ok"}}}
-        if kind.startswith("param"):
+        if pid in PARAM_DEFAULTS:
+            op["parameters"] = [{"name": "k", "in": "header" if "hdr" in kind else "query", "schema": with_default(x, PARAM_DEFAULTS[pid])},
+                                {"name": "other", "in": "query", "schema": {"type": "string"}}]
+        elif kind.startswith("param"):
             loc = "header" if "header" in kind else "query"
             op["parameters"] = [{"name": "k", "in": loc, "required": True, "schema": {"type": "array", "items": x} if kind.endswith("list") else x}]
         elif kind == "body-json":
@@ -1082,10 +1107,12 @@ def schema_ops(doc):
             labels.append((pid, "missing-class"))
             ops.append({"op": "signature", "module": "models", "name": h})
             continue
-        for j in mki(E_INST if t == "TEnum" else M_INST):
+        for j in mki(T_INST[t] if t in T_INST else E_INST if t == "TEnum" else M_INST):
             ops.append({"op": "roundtrip", "cls": h, "data": j})
             labels.append((pid, json.dumps(j)))
         if pid.startswith("default"):
+            ops.append({"op": "signature", "module": "models", "name": h})
+            labels.append((pid, "signature"))
             ops.append({"op": "construct", "cls": h, "kwargs": {}})
             labels.append((pid, "construct()"))
     def pcls(ep, attr):
@@ -1101,7 +1128,14 @@ def schema_ops(doc):
             labels.append((pid, "missing-endpoint"))
             ops.append({"op": "signature", "module": "api.t", "name": name})
             continue
-        if kind.startswith("param"):
+        if pid in PARAM_DEFAULTS:
+            # no arguments: the declared default must reach the wire (also: an explicit other argument only)
+            for kw, lab in (({}, "no-args"), ({"other": "o"}, "other-only")):
+                ops.append({"op": "call", "module": mod, "variant": "sync_detailed", "kwargs": kw, "response": {"status": 200}})
+                labels.append((pid, lab))
+            ops.append({"op": "signature", "module": mod, "name": "sync_detailed"})
+            labels.append((pid, "signature"))
+        elif kind.startswith("param"):
             cls = pcls(name, "header_parameters" if "header" in kind else "query_parameters")
             for v in ("cat", "dog"):
                 arg = {"@enum": [cls, v]}
@@ -1176,7 +1210,7 @@ def stage_c_schemas(run, tier):
         run.violation("harness-or-generator", {"error": ref["error"], "doc": ref.get("doc")})
         return
     # ---- one shared class per referenced schema (all-by-reference document)
-    expected = {"TModel", "TEnum"} | set(LATE_TARGETS) | {holder_name(p[0]) for p in SCHEMA_POS}
+    expected = {"TModel", "TEnum", "TIntEnum"} | set(LATE_TARGETS) | {holder_name(p[0]) for p in SCHEMA_POS}
     share_case = {"check": "shared-class", "classes": ref["classes"]}
     run.note_case(share_case, nontrivial=True, kind="shared-class")
     if set(ref["classes"]) != expected:
@@ -1188,20 +1222,20 @@ def stage_c_schemas(run, tier):
         if where != ["models/" + {"TModel": "t_model", "TEnum": "t_enum"}[t] + ".py"]:
             run.violation("oracle", {"doc": ref["doc"], "target": t, "defined_in": where, "note": "referenced schema is not defined in exactly one module"})
     for pid, t, _, _ in SCHEMA_POS:
-        if "allof" in pid.split(":")[0]:
+        if "allof" in pid.split(":")[0] or t not in T_MODULE:
             continue
         hm = "models/" + re.sub(r"(?<!^)(?=[A-Z])", "_", holder_name(pid)).lower() + ".py"
         src = next((v for k, v in mods.items() if k.replace("_", "") == hm.replace("_", "")), "")
-        imp = "from ..models.%s import %s" % ({"TModel": "t_model", "TEnum": "t_enum"}[t], t)
+        imp = "from ..models.%s import %s" % (T_MODULE[t], t)
         run.note_case({"check": "import", "holder": holder_name(pid)}, nontrivial=True, kind="shared-class")
         if imp not in src:
             run.violation("oracle", {"doc": ref["doc"], "holder": holder_name(pid), "expected_import": imp, "note": "holder module does not import the single shared class of the referenced schema"})
     for pid in EP_POS:
         kind, t = pid.split(":")
-        if t == "TBin":
+        if t not in T_MODULE:
             continue
         src = mods.get("api/t/op_%s.py" % kind.replace("-", "_"), "")
-        imp = "from ...models.%s import %s" % ({"TModel": "t_model", "TEnum": "t_enum"}[t], t)
+        imp = "from ...models.%s import %s" % (T_MODULE[t], t)
         if imp not in src:
             run.violation("oracle", {"doc": ref["doc"], "endpoint": pid, "expected_import": imp, "note": "endpoint module does not import the single shared class of the referenced schema"})
     # decoded values are instances of the shared class (by name) wherever a target value was decoded
